@@ -5,7 +5,21 @@ import (
 	"fmt"
 	"net"
 	"strconv"
+	"time"
 )
+
+// watchdog runs f (which must itself recover panics, e.g. via guard) in its own goroutine and
+// gives up after d: a handler that blocks forever (a mutex left held) yields "HANG".
+func watchdog(d time.Duration, f func() string) string {
+	ch := make(chan string, 1)
+	go func() { ch <- f() }()
+	select {
+	case r := <-ch:
+		return r
+	case <-time.After(d):
+		return "HANG"
+	}
+}
 
 func hx(b []byte) string {
 	if len(b) == 0 {
